@@ -3,6 +3,7 @@
 package main
 
 import (
+	"regexp"
 	"fmt"
 	"go/ast"
 	"go/parser"
@@ -848,6 +849,9 @@ var identRe = func(s string) bool {
 	return true
 }
 
+// an elision in an argument or element list (not the variadic "..." after an expression)
+var elisionRe = regexp.MustCompile(`(\(|, |\{)\.\.\.(,|\)|\})`)
+
 // derivePlus rewrites the minus text into a plus text.
 func (g *gen) derivePlus(p *pattern) string {
 	minus := p.minus
@@ -884,6 +888,13 @@ func (g *gen) derivePlus(p *pattern) string {
 		if g.mode == "c03" && len(mvs) > 0 && g.chance(0.12) {
 			// the whole replacement is what a metavariable stood for: whether it fits depends on the site
 			return mvs[g.r.Intn(len(mvs))] + "\n"
+		}
+		if g.chance(0.06) {
+			// the '+' side differs in a token that the syntax tree records only as a position being valid
+			hidden := elisionRe.ReplaceAllString(strings.TrimRight(minus, "\n"), "${1}dts${2}")
+			if t, ok := g.posOnlyCopy(hidden); ok {
+				return strings.ReplaceAll(t, "dts", "...") + "\n"
+			}
 		}
 		switch g.r.Intn(8) {
 		case 0:
